@@ -467,10 +467,13 @@ func (h *c11Run) listAndJudge(chain []string) []diskEnt {
 			c.Note("info_name", hx(iname))
 			c.Violation("listed-name-not-addressable", "get-info on a listed name answered for a different name")
 		}
-		if !bytes.Equal(ity, le.Type) {
+		// type agreement is a clause about FILES; a folder is listed as fldr whatever an information fork of the same
+		// name says (a folder `a` and a partial upload `a.incomplete` share the side file `.info_a`)
+		if e.regular && !bytes.Equal(ity, le.Type) {
 			c.Note("disk_name", e.name)
 			c.Note("list_type", hx(le.Type))
 			c.Note("info_type", hx(ity))
+			c.Note("history", h.trace)
 			c.Violation("type-disagree", "type code in the file list and in get-info differ")
 		}
 		if e.dir {
